@@ -121,7 +121,31 @@ Proof.
     destruct (Hf b) as [X|[X|[X|X]]]; rewrite X in E; revert E; apply T; intros x _; apply G.
 Qed.
 
+(* scan_octets is exactly: the symbols as the fast path sees them, then into_octet *)
+Theorem scan_octets_is_lex_fast q t :
+  scan_octets_text q t = do x <- lex_fast q t; do o <- map_o into_octet (fst x); Ok (o, snd x).
+Proof.
+  induction t as [|c r IH]; [reflexivity|].
+  cbn [lex_fast]. destruct (q && (c =? ch_quote)) eqn:H1.
+  - unfold scan_octets_text. cbn [fast_take]. rewrite H1. reflexivity.
+  - destruct ((c <? fast_lo) || (fast_hi <? c) || (if q then c =? 92 else mem c fast_unquoted_excl)) eqn:H2.
+    + unfold scan_octets_text. cbn [fast_take]. rewrite H1, H2.
+      destruct (lex q E0 (c :: r)) as [[s' r']| | |]; reflexivity.
+    + rewrite scan_octets_cons by assumption. rewrite IH. unfold cons_result.
+      destruct (lex_fast q r) as [[s' r']| | |]; try reflexivity. cbn [bind fst snd map_o].
+      assert (O : into_octet (if c =? 127 then SDec 127 else SChar c) = Ok c).
+      { apply orb_false_iff in H2 as [H2 _]. apply orb_false_iff in H2 as [H2 H4]. unfold fast_lo, fast_hi in *.
+        destruct (c =? 127) eqn:E; [apply N.eqb_eq in E; subst; reflexivity|].
+        cbn [into_octet]. unfold octet_lo, octet_hi. destruct ((32 <=? c) && (c <=? 126)) eqn:E2; [reflexivity|lia]. }
+      rewrite O. cbn [bind]. destruct (map_o into_octet s'); reflexivity.
+Qed.
+
+Example ex_nstext : c06_nstext [97; 127; 46; 92; 46; 98; 46] = Ok [[97; 127]; [46; 98]].
+Proof. vm_compute. reflexivity. Qed.
+Example ex_nstext_empty_label : c06_nstext [97; 46; 46; 98; 46] = Err E_name.
+Proof. vm_compute. reflexivity. Qed.
+
 Example ex_fast : scan_octets_text true [97; 32; 92; 34; 98; 34; 32] = Ok ([97; 32; 34; 98], [32]).
 Proof. vm_compute. reflexivity. Qed.
-Example ex_hinfo : c06_hinfo false [127; 97; 92; 48; 48; 55] = Ok [127; 97; 7].
+Example ex_hinfo : c06_hinfo 0 false [127; 97; 92; 48; 48; 55] = Ok [127; 97; 7].
 Proof. vm_compute. reflexivity. Qed.
